@@ -1,0 +1,17 @@
+//go:build verif
+
+package utils
+
+// VerifHook, when set (only in builds with the "verif" tag), receives one event per
+// instrumented linearisation point. It may block: the verification harness uses that to
+// steer goroutines into a chosen interleaving.
+var VerifHook func(ev string, who interface{}, a, b int)
+
+// VerifEmit forwards an event to VerifHook. It exists only in builds with the "verif" tag.
+func VerifEmit(ev string, who interface{}, a, b int) {
+	if h := VerifHook; h != nil {
+		h(ev, who, a, b)
+	}
+}
+
+func verifEmit(ev string, who interface{}, a, b int) { VerifEmit(ev, who, a, b) }
